@@ -490,7 +490,8 @@ static void gen(void)
 	usim_set_knob(URCU_VERIF_KNOB_COUNT_COMMIT_ORDER, (unsigned long) usim_param("knob.count_commit_order", 1 + rnd(2)));
 	usim_fault_enable("getcpu_migrate", rnd(2));
 	usim_fault_enable("getcpu_fail", rnd(4) == 0);
-	usim_fault_enable("pthread_create_eagain", mode == M_RESIZE && rnd(2));
+	usim_fault_enable("pthread_create_eagain", rnd(2));
+	usim_lib_threads_create_fail(1);	/* the resize worker's partition helpers (lazy resizes) */
 	usim_fault_enable("lfht_work_alloc_fail", mode == M_RESIZE && use_custom_alloc && rnd(2));
 	usim_describe("{\"flavor\":\"%s\",\"table\":{\"init\":%lu,\"min_alloc\":%lu,\"max\":%lu,\"flags\":%d,\"mm\":\"%s\",\"custom_alloc\":%d},",
 		F->name, init_size, min_alloc, max_buckets, ht_flags,
